@@ -288,8 +288,21 @@ impl Args {
                     ExecutionError::Timeout(timeout, outputs) => {
                         // append outcomes for each testcase that was executed (i.e. all testcase
                         // until and including the one that timed out)
-                        outcomes.extend(outputs.iter().zip(testcases.iter()).map(
-                            |(output, testcase)| {
+                        outcomes.extend(
+                            outputs
+                                .iter()
+                                .zip(testcases.iter())
+                                // as below: a detached execution is not waited for, there is
+                                // nothing to validate and nothing to report
+                                .filter(|(output, _)| {
+                                    if output.exit_code == ExitStatus::Detached {
+                                        count_detached += 1;
+                                        false
+                                    } else {
+                                        true
+                                    }
+                                })
+                                .map(|(output, testcase)| {
                                 let result = if matches!(output.exit_code, ExitStatus::Timeout(_)) {
                                     count_failed += 1;
                                     Err(TestCaseError::Timeout)
@@ -311,8 +324,8 @@ impl Args {
                                     format: test.parser_type,
                                     result,
                                 }
-                            },
-                        ));
+                            }),
+                        );
 
                         // append outcomes for each testcase that was not executed (i.e. all
                         // testcases after the one that timed out)
